@@ -20,8 +20,8 @@ Clauses (each is a sentence of the property statement):
               class attribute access (classmethod without `cls`)
   bases       same resolved base-class paths (consumer API `Class.resolved_bases` semantics on both trees; the subscript
               of `Repo[int]` / `Generic[T]` is ignored: only the static agent could give it)
-  docstring   same docstring value on modules, classes, functions (and property getters, which are functions in the
-              source); an empty docstring equals no docstring
+  docstring   same docstring presence and value on modules, classes, functions (and property getters, which are functions in
+              the source); an empty / whitespace-only literal is a docstring with value "" (CPython: `__doc__ == ""`)
   alias       every imported class/function/module is an alias on both sides, reaching the same final target path
 Tolerated, never compared: line numbers, labels other than the five flavours, attribute values/annotations/docstrings,
 whether an imported plain value is an alias (static) or an attribute (dynamic).
@@ -66,7 +66,8 @@ ASSUMPTIONS = [
     "names only assigned as self.x in __init__ are removed from the static side; dunder names are compared only when the source binds them",
     "method flavour (staticmethod/classmethod/property/cached) is read from labels both agents spell identically; other labels, "
     "`async`, attribute values, annotations and line numbers are not compared",
-    "an empty docstring is treated as no docstring; property getter docstrings count as function docstrings",
+    "docstring presence is compared as well as the value: an empty or whitespace-only literal is a docstring with value '' on both sides "
+    "(CPython: __doc__ == ''), distinct from no docstring; property getter docstrings count as function docstrings",
     "base classes are compared after resolution through the loaded modules collection (Class.resolved_bases semantics): a subscripted "
     "base `Repo[int]` / `Generic[T]` counts as the subscripted class (the inspector can never report the subscript); bases outside "
     "the package (typing.Generic, typing.Protocol) are compared by the last path either tree reaches",
@@ -125,7 +126,7 @@ def _sig(obj) -> list:
 def _clean(doc) -> str | None:
     if not isinstance(doc, str):
         return None
-    return inspect.cleandoc(doc.rstrip()) or None
+    return inspect.cleandoc(doc.rstrip())
 
 
 def cpython_facts(case: dict, top: str, root: str) -> dict[str, dict]:
@@ -192,8 +193,10 @@ TYPING_SUNDERS = {"_abc_impl", "_is_protocol", "_is_runtime_protocol"}
 
 
 def _doc(obj) -> str | None:
+    # presence and value: None = no docstring object; "" = an empty (or whitespace-only) docstring literal, which CPython
+    # keeps as `__doc__ == ""` and both agents report as a Docstring with an empty value
     d = obj.docstring
-    return (d.value or None) if d is not None else None
+    return d.value if d is not None else None
 
 
 def _flavour(labels) -> str:
